@@ -189,7 +189,7 @@ var htmlHeavy = &gen.Profile{Name: "htmlheavy", Extra: []string{
 	"\"><script>", "'><x>", "\" onmouseover=\"x", "--><x>", "]]><x>", "?><x>", "\x00", "\x80", "\n", "\n", " ", "# ", "## ", "```", "~~~", "[", "]", "(", ")", "![",
 }}
 
-var frags = []string{"\"", "'", "<", ">", "&", "\"><script>alert(1)</script>", "\" onerror=\"x", "'><b>", "<!-- x -->", "--><b>", "&quot;", "&#34;", "&#x22;", "&amp;quot;", "&lt;b&gt;", "<b>", "</a>", "</code>", "</pre>", "\\\"", "\\<", "&", "&#", "&x", "a&b", "\x00", "\x80\"", "é\"", "x\ny", "x  \ny", "x\\\ny", "*e*", "`c`", "]", ")", "|", "{", "}", "{#x}", "<a href=\"x\">", "a\"b'c<d>e&f", "<http://a/\"o=\"1>", "<x&y@a.bc>", "<http://a/?a&b=\"c\">", "<mailto:a\"b@c.de>", "[l](u \"t\")", "![i](u 't')", "<http://a.b/&nvlt;>", "`\"`", "*\"*"}
+var frags = []string{"\"", "'", "<", ">", "&", "\"><script>alert(1)</script>", "\" onerror=\"x", "'><b>", "<!-- x -->", "--><b>", "&quot;", "&#34;", "&#x22;", "&amp;quot;", "&lt;b&gt;", "<b>", "</a>", "</code>", "</pre>", "\\\"", "\\<", "&", "&#", "&x", "a&b", "\x00", "\x80\"", "é\"", "x\ny", "x  \ny", "x\\\ny", "*e*", "`c`", "]", ")", "|", "{", "}", "{#x}", "<a href=\"x\">", "a\"b'c<d>e&f", "<http://a/\"o=\"1>", "<x&y@a.bc>", "<http://a/?a&b=\"c\">", "<mailto:a\"b@c.de>", "[l](u \"t\")", "![i](u 't')", "<http://a.b/&nvlt;>", "`\"`", "*\"*", "`<b>\\|`", "`\\|\"`", "`a\\|&<`", "`<script>\\|`"}
 
 func frag(t *rapid.T, label string) []byte {
 	if rapid.IntRange(0, 2).Draw(t, label+"k") == 0 {
@@ -206,7 +206,7 @@ func frag(t *rapid.T, label string) []byte {
 var templates = []string{
 	"[x](u \"@\")\n", "[x](u '@')\n", "[x](u (@))\n", "![@](u)\n", "![a](u \"@\")\n", "[@](u)\n", "[x](@)\n", "[x](<@>)\n", "![x](@)\n",
 	"```@\nc\n```\n", "~~~ @\nc\n~~~\n", "# h {@}\n", "# h {#@}\n", "# h {.@}\n", "# h {k=\"@\"}\n", "# h {k=@}\n", "# h {data-x=\"@\"}\n", "h\n= {@}\n", "h {k=\"@\"}\n===\n", "# @\n",
-	"[r]\n\n[r]: u \"@\"\n", "[r]\n\n[r]: <@> '@'\n", "[@]\n\n[@]: u\n", "|@|b|\n|-|-|\n|c|@|\n", "|a|\n|:-|\n|@|\n", "x[^@]\n\n[^@]: n\n", "x[^1]\n\n[^1]: @\n", "@\n: d\n", "t\n: @\n",
+	"[r]\n\n[r]: u \"@\"\n", "[r]\n\n[r]: <@> '@'\n", "[@]\n\n[@]: u\n", "|@|b|\n|-|-|\n|c|@|\n", "|a|\n|-|\n|@|\n", "| @ | @ |\n|:-|-:|\n", "|a|\n|:-|\n|@|\n", "x[^@]\n\n[^@]: n\n", "x[^1]\n\n[^1]: @\n", "@\n: d\n", "t\n: @\n",
 	"<@>\n", "<http://a.b/@>\n", "<a@b.c@>\n", "http://a.b/@\n", "www.a.bc/@\n", "- [ ] @\n", "- [x] @\n", "~~@~~\n", "*@*\n", "`@`\n", "    @\n", "> @\n", "1. @\n", "<div @>\n", "<div>\n@\n</div>\n", "<!-- @ -->\n", "<@\n", "@",
 	"![a  \nb@](u)\n", "![a\\\nb](u \"@\")\n", "[![@](u)](v \"@\")\n", "# h {#i .c k=v data-y=\"@\"}\n",
 }
